@@ -19,26 +19,28 @@ Proof. exact print_msg_ends_flushed. Qed.
 Print Assumptions C13_print_msg_ends_flushed.
 
 (* variants_agree: every dispatched variant (4 kinds x colour x file x date, line parts arbitrary)
-   writes exactly what the canonical decoration writes, from every printer state [l];
-   excluded: the one dispatch of finding F11 *)
-Theorem C13_variants_agree : forall o m, wf_full m -> f11_class o m = false ->
+   writes exactly what the canonical decoration writes, from every printer state [l] — no exclusion
+   since /repo commit e7fb2a14 *)
+Theorem C13_variants_agree : forall o m, wf_full m ->
   forall l, sem (print_msg o m) l = sem (decorate o m) l.
 Proof. exact variants_agree_peq. Qed.
 Print Assumptions C13_variants_agree.
 
-(* F11 refuted: print_fixedstruct_prependfile_prependdate writes date field, then file field *)
-Theorem C13_fixedstruct_field_order_refuted :
-  wf_full f11_m /\ f11_class f11_o f11_m = true /\
-  sem_out (print_msg f11_o f11_m) None <> sem_out (decorate f11_o f11_m) None /\
-  payload (sem_out (print_msg f11_o f11_m) None) = [49;57;55;48;58;102;58;120;10]%N /\
+(* regression lemma for the repaired defect (fixedstruct, colour off, file + date): the OLD variant wrote
+   date field then file field and did not agree with the canonical decoration; the current one does *)
+Theorem C13_old_fixedstruct_variant_refuted :
+  wf_full f11_m /\
+  sem_out (old_print_fixedstruct_prependfile_prependdate f11_o f11_m) None <> sem_out (decorate f11_o f11_m) None /\
+  payload (sem_out (old_print_fixedstruct_prependfile_prependdate f11_o f11_m) None) = [49;57;55;48;58;102;58;120;10]%N /\
+  payload (sem_out (print_msg f11_o f11_m) None) = [102;58;49;57;55;48;58;120;10]%N /\
   payload (sem_out (decorate f11_o f11_m) None) = [102;58;49;57;55;48;58;120;10]%N.
-Proof. exact f11_refuted. Qed.
-Print Assumptions C13_fixedstruct_field_order_refuted.
+Proof. exact old_fixedstruct_variant_refuted. Qed.
+Print Assumptions C13_old_fixedstruct_variant_refuted.
 
 (* field order and "only the requested bytes", every kind, every colour setting: the payload written
    for a message is, for each line, file field ++ date field ++ line; the returned count is its length *)
 Theorem C13_field_order : forall o m last,
-  wf_full m -> m_beg m <= m_end m -> f11_class o m = false ->
+  wf_full m -> m_beg m <= m_end m ->
   payload (sem_out (print_msg o m) last)
     = concat (map (fun l => ((if o_file o then o_ff o else []) ++ (if o_date o then date_field o (m_t m) else [])) ++ l)
                   (flat_lines m))
@@ -49,7 +51,7 @@ Print Assumptions C13_field_order.
 (* strip_decorate: deleting SGR sequences, the file field, the date field and the separator
    from a printed message leaves the undecorated message *)
 Theorem C13_strip_decorate : forall g o m last del,
-  wf_full m -> m_beg m <= m_end m -> f11_class o m = false ->
+  wf_full m -> m_beg m <= m_end m ->
   (o_colour o = true -> sgr_ok g /\ no_esc (prefix o m) /\ Forall no_esc (flat_lines m) /\ no_esc del) ->
   strip o m del (concr g (sem_out (print_msg o m) last ++ obs del)) = Some (plain m).
 Proof. exact strip_decorate. Qed.
@@ -70,7 +72,7 @@ Proof. exact termcolor_sgr_ok. Qed.
 Print Assumptions C13_termcolor_sgr_ok.
 
 (* the whole run: for arbitrary sources, options and print events *)
-Theorem C13_strip_run : forall c srcs evs, Forall (ev_ok (popt_of c srcs evs)) evs ->
+Theorem C13_strip_run : forall c srcs evs, Forall ev_ok evs ->
   strip_msgs (shape_of c (popt_of c srcs evs) evs) (payload (k_stdout (run c srcs evs))) = Some (plain_run evs).
 Proof. exact strip_run. Qed.
 Print Assumptions C13_strip_run.
